@@ -160,8 +160,29 @@ def gen_layer(key):
         std::mem::forget(r);
     }}
 {ser_proofs}
+    // C15 (header half, complete over the header bytes): header bytes -> parse -> From<&Header> gives the same header bytes
+    fn check_header_codec(first: Option<u8>) {{
+        let (a, rawrc) = any_raw_at(0, first);
+        let raw: &[u8] = &a;
+        let off: usize = 0;
+        let hl: usize = {hdrlen};
+        let r = {ty}::from_bytes(rawrc.clone(), 0);
+        if let Ok(t) = &r {{
+            let h = t.header.borrow();
+            let out: Vec<u8> = (&*h).into();
+            assert!(out.len() == hl);
+            let i: usize = kani::any();
+            kani::assume(i < out.len());
+            assert!(out[i] == a[i]);
+            kani::cover!(true);
+            std::mem::forget(out);
+        }}
+        std::mem::forget(r);
+    }}
+{hc_proofs}
 """.format(ty=ty, key=key, hdrlen=hdrlen, nf=nf, raws=raws, MO=MO, H1=H + 1,
            fields_proofs="".join("    #[kani::proof] fn c16_%s_from_bytes_fields_off%d() { check_fields(%d); }\n" % (key, o, o) for o in offs),
+           hc_proofs="".join("    #[kani::proof] fn c15_%s_header_codec%s() { check_header_codec(%s); }\n" % (key, vs, vr) for (vs, vr) in ser_vars),
            ser_proofs="".join("    #[kani::proof] fn c15_%s_ro_serialise_off%d%s() { check_ro_serialise(%d, %s); }\n" % (key, o, vs, o, vr) for o in offs for (vs, vr) in ser_vars)))
 
     # C17 setters
@@ -245,5 +266,7 @@ def gen_layer(key):
              clause="%s::from_bytes on a buffer one byte longer than the header with off in 2..=64: Err, no panic" % ty),
     ] + [dict(name="c15_%s_ro_serialise_off%d%s" % (key, o, vs), props=["C15"], kind="bounded", bound="payload <= %d bytes, off = %d%s" % (X + MO - o, o, (", first header byte " + vr) if vs else ""),
              clause="Vec::from(&%s::from_bytes(raw, %d)) == raw[%d..]" % (ty, o, o)) for o in offs for (vs, vr) in ser_vars
+    ] + [dict(name="c15_%s_header_codec%s" % (key, vs), props=["C15"], kind="complete",
+              clause="From<&%sHeader>(parse(header bytes)) == the header bytes, for every header content%s" % (ty, (" with first byte " + vr) if vs else "")) for (vs, vr) in ser_vars
     ] + [dict(name=n, props=["C17"], kind="complete", clause=c) for n, c in names]
     return "".join(out), hs
